@@ -66,8 +66,12 @@ def generate(seed, mode):
                 ops.append({'op': 'reinit', 'c': c, 'k': k})
             elif r2 < 0.94:
                 ops.append({'op': 'cbases', 'c': c, 'bases': [o.randrange(nC) for _ in range(o.choice([0, 1, 2]))], 'k': k})
-            else:
+            elif o.random() < 0.5:
                 ops.append({'op': 'rebuildcache', 'c': c, 'k': k})
+            else:
+                # fault `cb-raise` inside the consistency probe: comparing a registered utility fails once (an array-like
+                # component whose == / != cannot be turned into a truth value); the caller catches it and carries on
+                ops.append({'op': 'probefail', 'c': c, 'k': k})
     # repeat bias: three in ten registrations re-use the key (and factory / component) of an earlier registration of the same
     # kind -- identical duplicates, replacements, the same factory twice under one key -- which uniform choice almost never gives
     rep = S('repeat')
@@ -190,8 +194,27 @@ def execute(program, ctx, mode):
 
         def __len__(self):
             return 0
+    touchy = [False]
+
+    class TouchyError(Exception):
+        pass
+
+    class Touchy(Hashable):
+        """a utility whose comparisons fail while `touchy` is armed (only ever during the consistency probe)"""
+        def __eq__(self, other):
+            if touchy[0]:
+                raise TouchyError()
+            return self is other
+
+        def __ne__(self, other):
+            if touchy[0]:
+                raise TouchyError()
+            return self is not other
+
+        def __hash__(self):
+            return id(self) >> 4
     utils = [Hashable('u0'), Hashable('u1'), FalsyHashable('u2'), EqHashable('ue0'), EqHashable('ue1'),
-             Unhashable(lab='ud0', k=1), Unhashable(lab='ud1', k=1), Unhashable(lab='ud2', k=2)]
+             Unhashable(lab='ud0', k=1), Unhashable(lab='ud1', k=1), Unhashable(lab='ud2', k=2), Touchy('ut')]
     named = Hashable('un')
     named.__component_name__ = 'a'
     directlyProvides(named, U2)
@@ -413,7 +436,10 @@ def execute(program, ctx, mode):
                     if gc_ != sorted(calls):
                         ctx.violation('C16', 'handle', 'C16|handle|multi', {'c': c})
             # ---- consistency probe
-            rep = comp.rebuildUtilityRegistryFromLocalCache()
+            try:
+                rep = comp.rebuildUtilityRegistryFromLocalCache()
+            except Exception as e:      # noqa: nothing of the simulator fails here (comparisons fail only inside `probefail`)
+                ctx.violation('C16', 'rebuild-probe', 'C16|rebuildUtilityRegistryFromLocalCache|raises|%s' % type(e).__name__, {'c': c})
             if rep['needed_registered'] or rep['needed_subscribed']:
                 ctx.violation('C16', 'rebuild-probe', 'C16|rebuildUtilityRegistryFromLocalCache|%s' % (
                     'needed_registered' if rep['needed_registered'] else 'needed_subscribed'), {'c': c, 'report': rep})
@@ -668,6 +694,16 @@ def execute(program, ctx, mode):
             ctx.log(step, 'cbases', c, nb)
             if tuple(comp.__bases__) != tuple(comps[b] for b in nb):
                 ctx.violation('C16', 'bases', 'C16|__bases__|not-stored', {})
+        elif name == 'probefail':
+            touchy[0] = True
+            try:
+                comp.rebuildUtilityRegistryFromLocalCache()
+                ctx.probe('probe-with-touchy-comparisons-did-not-fail')
+            except TouchyError:
+                ctx.fault('cb-raise-in-consistency-probe')
+            finally:
+                touchy[0] = False
+            ctx.log(step, 'probefail', c)
         elif name == 'rebuildcache':
             comp._v_utility_registrations_cache = None      # "the _v_ cache recreated on demand" (as after unpickling)
             ctx.probe('volatile-cache-dropped')
